@@ -76,7 +76,7 @@ def gen_case(run_seed: int, tier: str, index: int = 0) -> dict:
             steps.append(["step", r.randrange(8), 0, 0])
         else:
             steps.append([r.choices(EDITS, [5, 3, 6, 6, 7, 4, 4, 1, 2, 2])[0], r.randrange(1 << 16), r.randrange(1 << 16), r.randrange(1 << 16)])
-    return {"property": PROPERTY, "warnings_error": _knobs.warnings_knob(run_seed), "run_seed": run_seed, "n0": n0, "nested": nested, "deps": deps, "perm": perm, "function": r.random() < 0.3, "steps": steps, "ref_graph_attrs": Streams(run_seed).rng("ref-graph-attrs").random() < 0.5}
+    return {"property": PROPERTY, "warnings_error": _knobs.warnings_knob(run_seed), "run_seed": run_seed, "n0": n0, "nested": nested, "deps": deps, "perm": perm, "function": r.random() < 0.3, "steps": steps, "ref_graph_attrs": Streams(run_seed).rng("ref-graph-attrs").random() < 0.5, "falsy_nodes": Streams(run_seed).rng("falsy-nodes").choice([None, None, None, "len", "bool"])}
 
 
 class It:
@@ -100,6 +100,16 @@ class It:
         self.relevant = False
 
 
+class _SizedNode(ir.Node):
+    def __len__(self) -> int:
+        return len(self.inputs)
+
+
+class _FalseNode(ir.Node):
+    def __bool__(self) -> bool:
+        return False
+
+
 class Sim:
     def __init__(self, case: dict) -> None:
         self.case = case
@@ -109,17 +119,20 @@ class Sim:
         self.viol: dict | None = None
         self.stats: dict = {}
         self.trace: list = []
+        # user subclasses of Node whose instances can be FALSE in a boolean context (a container-like __len__, a __bool__):
+        # the sequence must treat them like any other node
+        self.mk = {None: ir.Node, "len": _SizedNode, "bool": _FalseNode}[case.get("falsy_nodes")]
         n0 = case["n0"]
         made = []
         for i in range(n0):
             ins = [made[j].outputs[0] for j in case["deps"][i] if j < len(made)]
             attrs = []
             if case["nested"][i]:
-                body_nodes = [ir.Node("", "Relu", [], name=f"b{i}_{k}") for k in range(1 + i % 3)]
+                body_nodes = [self.mk("", "Relu", [], name=f"b{i}_{k}") for k in range(1 + i % 3)]
                 if i % 2:
                     # a list of graphs in one attribute (AttributeType.GRAPHS), each with at least two nodes
-                    more = [ir.Node("", "Relu", [], name=f"c{i}_{k}") for k in range(2 + i % 2)]
-                    attrs = [ir.AttrGraphs("branches", [ir.Graph([], [], nodes=body_nodes + [ir.Node("", "Relu", [], name=f"b{i}_x")], name=f"case{i}a"), ir.Graph([], [], nodes=more, name=f"case{i}b")])]
+                    more = [self.mk("", "Relu", [], name=f"c{i}_{k}") for k in range(2 + i % 2)]
+                    attrs = [ir.AttrGraphs("branches", [ir.Graph([], [], nodes=body_nodes + [self.mk("", "Relu", [], name=f"b{i}_x")], name=f"case{i}a"), ir.Graph([], [], nodes=more, name=f"case{i}b")])]
                 else:
                     attrs = [ir.AttrGraph("body", ir.Graph([], [], nodes=body_nodes, name=f"body{i}"))]
             op_type = "If" if attrs else "Add"
@@ -128,7 +141,7 @@ class Sim:
                 # such an attribute holds no graph, the recursive walk has nothing to descend into
                 ref = ir.RefAttr(f"ref{i}", "graph_param" if i % 2 else "graphs_param", ir.AttributeType.GRAPH if i % 2 else ir.AttributeType.GRAPHS)
                 attrs = [ref] + attrs if i % 4 < 2 else attrs + [ref]
-            n = ir.Node("", op_type, ins, attrs, name=f"n{i}")
+            n = self.mk("", op_type, ins, attrs, name=f"n{i}")
             made.append(n)
         order = [made[p] for p in case["perm"]] if len(case["perm"]) == n0 else made
         self.g = ir.Graph([], [], nodes=order, name="G", opset_imports={"": 20})
@@ -170,7 +183,7 @@ class Sim:
             self.viol = {"clause": clause, "detail": detail, "key": clause}
 
     def new_node(self):
-        n = ir.Node("", "Add", [], name=f"x{len(self.nodes)}")
+        n = self.mk("", "Add", [], name=f"x{len(self.nodes)}")
         self.nid[id(n)] = f"x{len(self.nodes)}"
         self.nodes.append(n)
         return n
